@@ -16,7 +16,14 @@ Three correspondences against the real code (in-process, no fakes):
     accepted workflows: expanded graph acyclic, identifiers unique, references resolved, configurations resolve).
     For the CyclicVars faults (one more mention among the variables) the model's own Model.mutate of the well-formed
     workflow is also compared with the real load of the mutant (check_mutant_case).
- C. every named predicate of the table vs Model.pred_eval on a battery of values."""
+ C. every named predicate of the table vs Model.pred_eval on a battery of values.
+ D. FlowIR.convert_component_types (the coercion of option values that precedes the schema check) vs Model.convert on
+    one-option component documents: every entry of its expected_types table (extracted from the source of the
+    running code into Generated.expected_types_code and proved equal to Model.expected_types) x a palette of scalars,
+    lists and dictionaries (literal floats included); compared: raises / the converted document.
+The generated workflows of B contain aggregating (workflowAttributes.aggregate: true) and replicating
+(workflowAttributes.replicate: N) components, the structural faults are placed through them too, and B also holds the
+scalar-for-scalar WrongType faults (a float / string / dictionary for an int, float, bool or str option)."""
 import copy
 import json
 import os
@@ -36,10 +43,16 @@ ASSUMPTIONS = [
     'the regular expressions of is_var_reference and ParseDataReference are the recognisers of coq/Ref/Model.v (C09)',
     'the workflow model has one platform, no DoWhile/import documents, no interface, no application dependencies; '
     'replication appears in the load correspondence only through the real loader (primitive=False); the Coq mirror of the '
-    'expansion (coq/Valid/Replicate.v) uses structured (component, replica index) identifiers and is not compared',
+    'expansion (coq/Valid/Replicate.v) uses structured (component, replica index) identifiers and is not compared; '
+    'in a generated workflow that replicates, a component name is used in one stage only and one replica count is used '
+    '(the textual rewriting of replica references and inconsistent replica counts are outside the property)',
     'global variables are resolved among themselves and stored in place before components are resolved '
     '(FlowIRConcrete.instance): a global whose transitive mentions are all globals is a constant for the components',
     'the rendering of a structured workflow into a FlowIR dictionary (harness) is trusted',
+    'option values hold no variable references (the fill_in that precedes convert_component_types is the identity on '
+    'them); int()/float() of a string are modelled for the plain spellings [+-]?[0-9]+ and digits with at most one '
+    'point (no exponent, inf/nan, blanks, underscores); values coerced to a backend/environment/interpreter/executable '
+    'NAME are not explored (the lookup of the name is outside the model)',
     'graphFromFlowIR is loaded with primitive=False: with the default primitive=True the loader does not look for '
     'cycles at all (the property speaks about the expanded graph)',
 ]
@@ -162,6 +175,54 @@ def gschema(s, F):
     raise GenError('unsupported schema node %r' % (s,))
 
 
+CONV_NAMES = {'str': 'CStr', 'int': 'CInt', 'float': 'CFloat', 'to_bool': 'CBool', 'str_to_bool': 'CStrBool',
+              'optional_int': 'COptInt', 'cls.memory_to_bytes': 'CMemory', 'cls.str_to_kubernetes_qos': 'CQos',
+              'dict': 'CDictT'}
+CONV_TABLE = {}     # path (tuple of keys) -> converter name of Model.conv
+
+
+def expected_types_table(F):
+    """the `expected_types = {...}` literal of FlowIR.convert_component_types, read from the source of the running
+    code: -> nested dict whose leaves are names of Model.conv (a callable that is not in the closed table of
+    converters fails the generation)"""
+    import ast
+    import inspect
+    import textwrap
+    tree = ast.parse(textwrap.dedent(inspect.getsource(F.FlowIR.convert_component_types)))
+    found = [n for n in ast.walk(tree) if isinstance(n, ast.Assign) and len(n.targets) == 1
+             and isinstance(n.targets[0], ast.Name) and n.targets[0].id == 'expected_types']
+    if len(found) != 1 or not isinstance(found[0].value, ast.Dict):
+        raise GenError('convert_component_types has no single `expected_types = {...}` literal')
+
+    def walk(node):
+        if isinstance(node, ast.Dict):
+            out = {}
+            for k, v in zip(node.keys, node.values):
+                if not (isinstance(k, ast.Constant) and isinstance(k.value, str)):
+                    raise GenError('expected_types: key %s is not a string literal' % ast.dump(k))
+                out[k.value] = walk(v)
+            return out
+        name = ast.unparse(node)
+        if name not in CONV_NAMES:
+            raise GenError('expected_types: converter %r is not in the closed table of converters' % name)
+        return CONV_NAMES[name]
+    return walk(found[0].value)
+
+
+def gctree(t):
+    if isinstance(t, dict):
+        return '(CNode %s)' % clist(list(t.items()), lambda kv: '(%s, %s)' % (cstr(kv[0]), gctree(kv[1])))
+    return '(CLeaf %s)' % t
+
+
+def _walk_table(t, p):
+    if isinstance(t, dict):
+        for k, v in t.items():
+            _walk_table(v, p + (k,))
+    else:
+        CONV_TABLE[p] = t
+
+
 def _walk_default(d, p, sections, leaves):
     sections.append(list(p))
     for k, v in d.items():
@@ -198,6 +259,10 @@ def generate():
         out.append('(* dictionaries of default_component_structure() (option sections) and its leaf options *)')
         out.append('Definition option_sections : list (list pk) :=\n  %s.\n' % clist(sections, lambda p: clist(p, cpk)))
         out.append('Definition option_leaves : list (list pk) :=\n  %s.\n' % clist(leaves, lambda p: clist(p, cpk)))
+        table = expected_types_table(F)
+        _walk_table(table, ())
+        out.append('(* the expected_types table of FlowIR.convert_component_types, read from its source *)')
+        out.append('Definition expected_types_code : ctree :=\n  %s.\n' % gctree(table))
         # (the repr of a function inside an Optional(...) label holds a memory address: not part of any compared label)
         txt = re.sub(r' at 0x[0-9a-f]+', '', '\n'.join(out))
     except Exception as e:  # unknown callable, import failure...
@@ -397,6 +462,74 @@ def pred_cases(ctx):
     ctx.count('C:cases', len(terms))
 
 
+# ------------------------------------------------------------------ D. convert_component_types
+CONV_VALUES = [2.5, 0.5, 600.0, -1.5, 'abc', '3', '-3', '+4', '2.5', '.5', '5.', '-', '.', '1.2.3', 'yes', 'No', 'TRUE',
+               'false', 'True', 'y', True, False, 7, 0, -3, None, '', {'x': 1}, {}, {7: 1}, [1], [], '5Mi', '7Gi', '5Xi',
+               'Mi', '-2Gi', 'burstable', 'Guaranteed', 'x/y']
+
+
+def put_path(doc, p, v):
+    d = doc
+    for x in p[:-1]:
+        d = d.setdefault(x, {})
+    d[p[-1]] = v
+    return doc
+
+
+def real_convert(doc):
+    """-> the converted document, or None when convert_component_types raises FlowIRFailedComponentConvertType"""
+    import experiment.model.frontends.flowir as F
+    import experiment.model.errors as E
+    d = copy.deepcopy(doc)
+    try:
+        F.FlowIR.convert_component_types(d, ignore_convert_errors=False, out_errors=None, is_primitive=False)
+    except E.FlowIRFailedComponentConvertType:
+        return None
+    return d
+
+
+def convert_cases(ctx):
+    paths = sorted(CONV_TABLE)
+    # dictionaries of the table (a scalar there: "a dictionary is not callable"), and positions the table does not name
+    inner = sorted(set(p[:i] for p in paths for i in range(1, len(p))))
+    other = [('workflowAttributes', 'memoization', 'embeddingFunction'), ('resourceManager', 'docker', 'platform'),
+             ('executors',), ('variables', 'v'), ('resourceRequest', 'zzUnknown'), (7,)]
+    docs = []
+    for p in paths + inner + other:
+        vals = CONV_VALUES if (ctx.tier != 'quick' or p in paths) else CONV_VALUES[:6] + [{'x': 1}, {}]
+        if ctx.tier == 'quick' and p in paths:
+            vals = CONV_VALUES[:4] + ctx.rng.sample(CONV_VALUES[4:], 12)
+        for v in vals:
+            docs.append(put_path({'name': 'a', 'stage': 0}, list(p), copy.deepcopy(v)))
+    # several options at once: one failure is enough to make the component invalid
+    docs.append({'name': 'a', 'stage': 0, 'resourceRequest': {'numberThreads': '2', 'gpus': True, 'memory': '2Gi'},
+                 'workflowAttributes': {'aggregate': 'yes', 'replicate': '2', 'maxRestarts': None, 'repeatInterval': 2.5},
+                 'resourceManager': {'config': {'walltime': 30, 'backend': 7}, 'kubernetes': {'podSpec': {'a': {'b': 1}}}}})
+    docs.append({'name': 'a', 'stage': 0, 'resourceRequest': {'numberThreads': '2', 'gpus': 'x'},
+                 'workflowAttributes': {'aggregate': 'yes'}})
+    terms, metas = [], []
+    for d in docs:
+        try:
+            impl = real_convert(d)
+            term = '(%s, %s)' % (cpv(d), 'None' if impl is None else '(Some %s)' % cpv(impl))
+        except GenError:
+            continue
+        except Exception as e:      # another exception type escaping the conversion
+            ctx.disagree({'document': d}, type(e).__name__, 'Model.convert', 'convert_component_types raised')
+            continue
+        terms.append(term)
+        metas.append((d, impl))
+        ctx.case(('D', repr(d)), impl is None)
+        ctx.count('D:raises' if impl is None else 'D:converted')
+    bad = ctx.model_mismatches(HEADER, terms, 'check_convert_case', chunk=400, name='convert')
+    for i in bad:
+        d, impl = metas[i]
+        ctx.disagree({'document': d}, impl, 'Model.convert differs',
+                     'FlowIR.convert_component_types vs Model.convert (which scalars are coerced, which are left '
+                     'for the schema, which raise)')
+    ctx.count('D:cases', len(terms))
+
+
 # ------------------------------------------------------------------ B. structured workflows
 NAMES = ['a', 'b', 'gen', 'x1', 'proc-2', 'm.n']
 OPTION_SETS = [
@@ -414,10 +547,15 @@ def gen_wf(rng):
     comps = []
     used = set()
     stage = 0
+    # aggregating / replicating components in about 7 workflows of 10; there a name is used in one stage only: the
+    # loader rewrites the references of a replica textually (`x1:ref` inside `stage0.x1:ref`), a replicated and a plain
+    # producer of the same name in two stages make it reject a well-formed workflow (outside the property and the model)
+    with_replication = rng.random() < 0.7
     for i in range(n):
         if i and rng.random() < 0.4:
             stage += 1
-        name = rng.choice([x for x in NAMES if (stage, x) not in used])
+        name = rng.choice([x for x in NAMES if (stage, x) not in used
+                           and not (with_replication and x in [u[1] for u in used])])
         used.add((stage, name))
         prev = [(c['stage'], c['name']) for c in comps]
         k = rng.randint(0, min(2, len(prev)))
@@ -439,6 +577,15 @@ def gen_wf(rng):
         c['idx_uses'] = [u for u in c['uses']
                          if (c['vars'].get(u) == [] or (u not in c['vars'] and gvars.get(u) == [])) and rng.random() < 0.35]
         c['opts'] = copy.deepcopy(rng.choice(OPTION_SETS))
+    # (one replica count per workflow: the counts that reach a component must be consistent)
+    if with_replication:
+        repn = rng.randint(1, 3)
+        for c in comps:
+            r = rng.random()
+            if r < 0.35:
+                c['opts'].setdefault('workflowAttributes', {})['aggregate'] = True
+            elif r < 0.65:
+                c['opts'].setdefault('workflowAttributes', {})['replicate'] = repn
     return {'gvars': gvars, 'comps': comps}
 
 
@@ -508,6 +655,14 @@ def reachable_from(w, src):
     return out
 
 
+def _has_section(doc, p):
+    for x in p:
+        if not isinstance(doc, dict) or not isinstance(doc.get(x), dict):
+            return False
+        doc = doc[x]
+    return isinstance(doc, dict)
+
+
 def set_path(doc, p, k, v):
     d = doc
     for x in p:
@@ -516,6 +671,71 @@ def set_path(doc, p, k, v):
         d = d[x]
     d[k] = v
     return True
+
+
+# str options whose VALUE is a name that the loader looks up beyond the schema (a backend, an environment, an
+# interpreter, an executable): str(7) is a well typed but unknown name - outside the model, only the wrongly typed
+# values are explored there
+NAME_OPTIONS = {('resourceManager', 'config', 'backend'), ('command', 'environment'), ('command', 'executable'),
+                ('command', 'interpreter'), ('command', 'arguments')}
+INT_RE = re.compile(r'[+-]?[0-9]+$')
+FLOAT_RE = re.compile(r'[+-]?([0-9]+(\.[0-9]*)?|\.[0-9]+)$')
+MEM_RE = re.compile(r'[+-]?[0-9]+(Mi|Gi)?$')
+# options converted with int() whose schema also admits a float (C11_schema_float_options)
+INT_ADMITS_FLOAT = {('workflowAttributes', 'repeatInterval')}
+SCALAR_VALUES = [2.5, 0.5, 4.0, 'abc', '3', '2.5', 'yes', 7, True, {'x': 1}, {}]
+# always explored on the corpus workflows: the witnesses of the silently truncated floats (F11c and the conversion of
+# convert_component_types), non-numeric strings, dictionaries, and the coercions that are accepted by design
+CORPUS_SCALARS = [(('workflowAttributes', 'replicate'), 2.5), (('workflowAttributes', 'replicate'), 4.0),
+                  (('resourceRequest', 'numberThreads'), 2.5), (('workflowAttributes', 'maxRestarts'), 0.5),
+                  (('resourceRequest', 'gpus'), 0.5), (('resourceManager', 'kubernetes', 'gracePeriod'), 4.0),
+                  (('resourceRequest', 'numberProcesses'), 'abc'), (('resourceRequest', 'numberThreads'), {'x': 1}),
+                  (('resourceManager', 'config', 'walltime'), 'abc'), (('workflowAttributes', 'aggregate'), 'abc'),
+                  (('workflowAttributes', 'aggregate'), 2.5), (('command', 'resolvePath'), 7),
+                  (('resourceManager', 'lsf', 'queue'), 2.5),
+                  (('resourceRequest', 'numberThreads'), '3'), (('resourceRequest', 'gpus'), True),
+                  (('workflowAttributes', 'aggregate'), 'yes'), (('resourceManager', 'config', 'walltime'), 30),
+                  (('resourceManager', 'lsf', 'queue'), 7), (('workflowAttributes', 'repeatInterval'), 2.5),
+                  (('resourceRequest', 'memory'), 2.5)]
+
+
+def scalar_fault(path, v):
+    """the property's verdict on `option: v` from the kind of the option (the converter the expected_types table
+    names for it) and the kind of the value alone - the mirror of Model.wrong_rejected / C11_scalar_*:
+    True = a wrongly typed option (must be rejected), False = well typed or coerced by design (no demand), None = not
+    classified (not explored)"""
+    kind = CONV_TABLE.get(tuple(path))
+    if kind is None or v is None or isinstance(v, list) or path[-1] == 'isRepeat':
+        return None
+    if isinstance(v, dict):
+        return kind != 'CDictT'
+    isb, isi, isf, iss = isinstance(v, bool), isinstance(v, int), isinstance(v, float), isinstance(v, str)
+    if kind in ('CInt', 'COptInt'):
+        if isf:
+            return tuple(path) not in INT_ADMITS_FLOAT
+        return iss and not INT_RE.match(v)
+    if kind == 'CFloat':
+        return iss and not FLOAT_RE.match(v)
+    if kind == 'CBool':
+        return isf or (iss and v.lower() not in ('true', 'false', 'yes', 'no'))
+    if kind == 'CStrBool':
+        return isf or (isi and not isb) or (iss and v.lower() not in ('true', 'false', 'yes', 'no'))
+    if kind == 'CStr':
+        return isf
+    if kind == 'CMemory':
+        return iss and not MEM_RE.match(v)
+    if kind == 'CQos':
+        return not iss or v.lower() not in ('guaranteed', 'burstable', 'besteffort')
+    if kind == 'CDictT':
+        return not (iss and v == '')
+    return None
+
+
+def on_cycle_through(w, i, r, idl):
+    """the components on the cycles that the new edge r -> component i closes"""
+    down = reachable_from(w, idl[i])
+    up = set(x for x in idl if r in reachable_from(w, x))
+    return (down & up) | {idl[i], r}
 
 
 def load_mutants(w, tier, rng, corpus=False):
@@ -551,6 +771,14 @@ def load_mutants(w, tier, rng, corpus=False):
             m['comps'][i]['refs'].append(r)
             cyc = (r == idl[i]) or (r in down)
             out.append(('AddBackEdge' if cyc else 'AddForwardEdge', cyc, [], finalize(m)))
+            if cyc:
+                nodes = on_cycle_through(w, i, r, idl)
+                aggs = [c for c in w['comps'] if (c['stage'], c['name']) in nodes
+                        and (c['opts'].get('workflowAttributes') or {}).get('aggregate')]
+                if aggs:
+                    out[-1] = ('AddBackEdge',) + out[-1][1:] + (None, 'B:AddBackEdge through an aggregating component (%s)'
+                                                                % ('one stage' if len(set(x[0] for x in nodes)) == 1
+                                                                   else 'across stages'))
         # duplicate a name
         for j in range(n):
             if i != j:
@@ -589,6 +817,37 @@ def load_mutants(w, tier, rng, corpus=False):
             finalize(m)
             m['comps'][i]['doc'][k] = v
             out.append(('WrongType', True, [], m))
+    # ---- WrongType, scalar for scalar: a float / string / int / bool / dictionary at an option of the conversion table
+    base_term = c_wf(base)
+    repn = ([(c['opts'].get('workflowAttributes') or {}).get('replicate') for c in w['comps']
+             if (c['opts'].get('workflowAttributes') or {}).get('replicate')] or [None])[0]
+    for i in range(n):
+        doc = base['comps'][i]['doc']
+        cand = [(pth, v) for pth in sorted(CONV_TABLE) for v in SCALAR_VALUES]
+        if tier == 'quick':
+            cand = rng.sample(cand, 8)
+        elif not (corpus and i < 2):
+            cand = rng.sample(cand, 25)     # (the full cross product on two components of each corpus workflow)
+        if corpus and i == 0:
+            cand = CORPUS_SCALARS + cand
+        for pth, v in cand:
+            faulty = scalar_fault(pth, v)
+            if faulty is None or (not faulty and tuple(pth) in NAME_OPTIONS):
+                continue
+            if tuple(pth) == ('workflowAttributes', 'replicate') and not faulty:
+                # a coerced replica count must agree with the count the other producers of the workflow use (two
+                # different counts reaching one component are refused - a fault the property does not list)
+                if repn is not None:
+                    v = str(repn) if isinstance(v, str) else repn
+                elif len(set(c['name'] for c in w['comps'])) < n:
+                    continue    # (replicas and a name used in two stages: textual rewriting of references, see gen_wf)
+            m = fresh()
+            finalize(m)
+            put_path(m['comps'][i]['doc'], list(pth), copy.deepcopy(v))
+            item = ('WrongScalar' if faulty else 'CoercedScalar', faulty, [], m)
+            if _has_section(doc, pth[:-1]):     # (Model.mutate leaves a document without that section unchanged)
+                item += ((base_term, '(WrongType %d %s %s %s)' % (i, clist(pth[:-1], cpk), cpk(pth[-1]), cpv(v))),)
+            out.append(item)
     for g in w['gvars']:
         m = fresh()
         del m['gvars'][g]
@@ -757,6 +1016,17 @@ CORPUS_WF = {'gvars': {'g0': [], 'g1': ['g0']},
                        {'stage': 1, 'name': 'a', 'refs': [(0, 'b'), (0, 'a')], 'uses': [], 'vars': {}, 'opts': OPTION_SETS[2]}]}
 
 
+# replicating producers, an aggregating component in the middle of a chain and one at its end, in two stages: the
+# AddBackEdge faults close cycles through an aggregating component inside stage 0 and across the stages
+AGG = {'workflowAttributes': {'aggregate': True}}
+CORPUS_WF_AGG = {'gvars': {'g0': []},
+                 'comps': [{'stage': 0, 'name': 'gen', 'refs': [], 'uses': [], 'vars': {}, 'opts': {'workflowAttributes': {'replicate': 2}}},
+                           {'stage': 0, 'name': 'b', 'refs': [(0, 'gen')], 'uses': ['g0'], 'vars': {}, 'opts': {}},
+                           {'stage': 0, 'name': 'x1', 'refs': [(0, 'b')], 'uses': [], 'vars': {'lv': ['g0']}, 'opts': AGG},
+                           {'stage': 1, 'name': 'a', 'refs': [(0, 'x1')], 'uses': ['g0'], 'vars': {}, 'opts': OPTION_SETS[1]},
+                           {'stage': 1, 'name': 'm.n', 'refs': [(1, 'a'), (0, 'x1')], 'uses': [], 'vars': {}, 'opts': AGG}]}
+
+
 def explore_loads(ctx, items):
     """items: (fault name, faulty, classes, finalized workflow)"""
     terms, metas = [], []
@@ -764,6 +1034,8 @@ def explore_loads(ctx, items):
     slow = 0.0
     for item in items:
         fault, faulty, classes, w = item[:4]
+        if len(item) > 5:
+            ctx.count(item[5])
         flowir = render(w)
         acc, exc, reasons, problems, dt = real_load(flowir)
         slow = max(slow, dt)
@@ -789,7 +1061,7 @@ def explore_loads(ctx, items):
                 continue
             terms.append('(%s, %s, %s)' % (c_wf(w), cbool(acc), clist(reasons, cnat)))
             metas.append((case, acc, exc, reasons))
-            if len(item) > 4:
+            if len(item) > 4 and item[4] is not None:
                 # the model's own mutation of the well-formed workflow against the real load of the mutant
                 mterms.append('(%s, %s, %s)' % (item[4][0], item[4][1], cbool(acc)))
                 mmetas.append((case, acc, exc, item[4][1]))
@@ -829,17 +1101,23 @@ def run(ctx):
                               'type_flowir_structure/default_component_structure of the tree under test at import '
                               'time of harness/c11.py, before the proofs were built')
     pred_cases(ctx)
+    convert_cases(ctx)
     schema_cases(ctx, base_flowir_for_schema())
     nwf = 6 if ctx.tier == 'quick' else 40
-    wfs = [copy.deepcopy(CORPUS_WF)] + [gen_wf(ctx.rng) for _ in range(nwf)]
+    wfs = [copy.deepcopy(CORPUS_WF), copy.deepcopy(CORPUS_WF_AGG)] + [gen_wf(ctx.rng) for _ in range(nwf)]
     items = []
     for w in wfs:
         items.append(('none', False, [], finalize(copy.deepcopy(w))))
-        items.extend(load_mutants(w, ctx.tier, ctx.rng, corpus=(w is wfs[0])))
+        if any((c['opts'].get('workflowAttributes') or {}).get('aggregate') for c in w['comps']):
+            ctx.count('B:workflows with an aggregating component')
+        if any((c['opts'].get('workflowAttributes') or {}).get('replicate') for c in w['comps']):
+            ctx.count('B:workflows with a replicating component')
+        items.extend(load_mutants(w, ctx.tier, ctx.rng, corpus=(w is wfs[0] or w is wfs[1])))
     explore_loads(ctx, items)
     ctx.rule = ('A: a document with at least one schema error; B: a single-fault mutant (drop/rename/add edge/duplicate '
-                'name/unknown key/wrong type/remove variable/one more mention among the variables) of a generated 2-5 component workflow; '
-                'C: every (named predicate, value) pair')
+                'name/unknown key/wrong type: a list or a scalar of another type/remove variable/one more mention among '
+                'the variables) of a generated 2-5 component workflow with aggregating and replicating components; '
+                'C: every (named predicate, value) pair; D: a one-option document on which convert_component_types raises')
     ctx.extra['mutants_per_workflow'] = 'all positions for the structural faults; quick tier samples 6 of %d option ' \
         'sections and 13 of %d option leaves per component, thorough takes all' % (
             len(SCHEMA_OBJS['sections']), len(SCHEMA_OBJS['leaves']))
@@ -853,7 +1131,8 @@ def replay(ctx, path):
         print('fault=%s accepted=%s exception=%s reasons=%s problems=%s (%.2fs)' % (c.get('fault'), acc, exc, reasons,
                                                                                   problems, dt))
         bad = (exc not in (None, 'ExperimentInvalidConfigurationError')) or (acc and c.get('fault') not in
-                                                                             ('none', 'AddForwardEdge', 'AddVarMention')) or problems
+                                                                             ('none', 'AddForwardEdge', 'AddVarMention',
+                                                                              'CoercedScalar')) or problems
         if bad:
             print('REPRODUCED: %s' % d.get('what', 'property violation'))
         return 1 if bad else 0
